@@ -119,7 +119,9 @@ def extract(repo="/repo", config="all", target_tag=None, keep_target=True):
             for d in os.listdir(fp):
                 if d.startswith(("nuts-rs-", "nuts-storable-", "nuts-derive-")):
                     shutil.rmtree(os.path.join(fp, d), ignore_errors=True)
-        tmp_out = out + ".tmp.%d" % os.getpid()
+        import threading
+        # unique per thread: the fixture runner extracts several scratch trees from threads of one process, and two fixtures may carry the same patch
+        tmp_out = out + ".tmp.%d.%d" % (os.getpid(), threading.get_ident())
         shutil.rmtree(tmp_out, ignore_errors=True)
         os.makedirs(tmp_out)
         env = dict(os.environ)
@@ -153,9 +155,21 @@ def extract(repo="/repo", config="all", target_tag=None, keep_target=True):
             "files": sorted(os.listdir(tmp_out)),
         }
         json.dump(meta, open(os.path.join(tmp_out, "meta.json"), "w"))
+        if os.path.exists(meta_p):
+            # another thread / process finished the same tree meanwhile (different target slot, hence a different lock): keep its entry
+            shutil.rmtree(tmp_out, ignore_errors=True)
+            meta = json.load(open(meta_p))
+            meta["repo"] = repo
+            return out, meta
         if os.path.exists(out):
             shutil.rmtree(out, ignore_errors=True)
-        os.rename(tmp_out, out)
+        try:
+            os.rename(tmp_out, out)
+        except OSError:
+            if os.path.exists(meta_p):
+                shutil.rmtree(tmp_out, ignore_errors=True)
+            else:
+                raise
         _gc()
         if not keep_target:
             shutil.rmtree(target, ignore_errors=True)
